@@ -56,14 +56,20 @@ pub fn exec(w: &[&str], obs: &mut Obs) -> Option<String> {
         ["i64", h] => {
             let d = unhex(h)?;
             let r = Scalar::new(&d).to_i64();
+            // exact characterisation over i64::MIN ..= i64::MAX (i64::MIN must convert)
             let expect = ref_int(&d, true).and_then(|(neg, v)| {
-                if v <= i64::MAX as u128 { Some(if neg { -(v as i64) } else { v as i64 }) } else { None }
+                if neg {
+                    if v <= 1u128 << 63 { Some((-(v as i128)) as i64) } else { None }
+                } else if v <= i64::MAX as u128 {
+                    Some(v as i64)
+                } else {
+                    None
+                }
             });
-            // the property leaves i64::MIN itself open ("-(2^63-1)..=2^63-1" must convert)
-            let is_min = ref_int(&d, true) == Some((true, 1u128 << 63));
-            if r.clone().ok() != expect && !(is_min && r == Ok(i64::MIN)) {
+            if r.clone().ok() != expect {
                 obs.violation("i64-exact", &case(), &format!("impl {:?} reference {:?}", r, expect));
             }
+            if r == Ok(i64::MIN) { obs.count("i64:min"); }
             obs.count(if r.is_ok() { "i64:ok" } else { "i64:err" });
             Some(match r { Ok(v) => format!("ok {}", v), Err(e) => err(&e).to_string() })
         }
